@@ -260,3 +260,14 @@ Section SpecFacts.
     split; intros Hop; destruct op; try congruence; try (eexists; reflexivity); reflexivity.
   Qed.
 End SpecFacts.
+
+(* Each field assertion of a wildcard struct pattern reads the field from the pattern's OWN value expression, whatever the other
+   fields (written before or after it) are: what they call, bind or evaluate cannot change where this one looks. *)
+Theorem wildcard_struct_field_reads_its_own_value : forall j id rest fields e i ops fpat fname,
+  nth_error fields i = Some (ops, fpat) -> root_field_name ops = Some fname -> field_name_index_ok fname = true ->
+  exists body, expand j (PStruct id None rest fields) e = SSeq body /\
+               nth_error body i = Some (with_tail ops (VField e fname) (VRef (VField e fname)) (expand j fpat)).
+Proof.
+  intros j id rest fields e i ops fpat fname Hn Hr Hi. eexists. split; [reflexivity|].
+  rewrite nth_error_map, Hn. cbn [option_map]. rewrite Hr, Hi. reflexivity.
+Qed.
